@@ -69,6 +69,8 @@ def stub_uniform(E, M, prefix="u", fixed=None):
     drawn = []
 
     def uniform(a, b):
+        import asyncio
+
         lo, hi = round(a * SCALE), round(b * SCALE)
         cnt[0] += 1
         if fixed is not None:
@@ -77,7 +79,11 @@ def stub_uniform(E, M, prefix="u", fixed=None):
             v = lo
         else:
             v = E.int("%s%d" % (prefix, cnt[0]), lo, hi)
-        drawn.append(v)
+        try:
+            now = asyncio.get_event_loop().time()
+        except Exception:  # noqa: BLE001
+            now = None
+        drawn.append({"v": v, "lo": lo, "hi": hi, "at": now})
         return Ticks(v)
 
     class _R:
